@@ -1,6 +1,6 @@
 (* C13 — property theorems (statements only; proofs are in C13/Proofs.v and C13/Taps.v) *)
 From Coq Require Import ZArith QArith Qabs List Bool Sorted Permutation.
-From PPV Require Import Base.QN C13.Model C13.Proofs C13.Taps C13.Invariant.
+From PPV Require Import Base.QN C13.Model C13.Proofs C13.Taps C13.Invariant C13.Vector C13.Simulation C13.Hunting.
 Import ListNotations.
 Open Scope Q_scope.
 
@@ -91,7 +91,9 @@ Theorem C13_invariant_over_runs : forall St run (P : St -> Prop),
 Proof. exact run_control_keeps. Qed.
 Print Assumptions C13_invariant_over_runs.
 
-(* "tap controllers never move a tap outside [tap_min, tap_max]" over whole runs: for every controller table whose kinds are
+(* "tap controllers never move a tap outside [tap_min, tap_max]" over whole runs, ELEMENT-WISE for controllers over index
+   arrays (Pinv / WF range over every element of every scalar or vector tap controller, hunting_limit and
+   TapDependentImpedance restore included): for every controller table whose kinds are
    well-formed (continuous controllers check the bounds with tap_min <= tap_max; the controllers of one transformer read the
    same limits; characteristic controllers do not write a controlled tap_pos), every power-flow oracle, levels, orders,
    max_iter and flags: taps that start inside their bounds are inside them in every state of the call trace and on return
@@ -187,14 +189,193 @@ Example C13_invariant_nonvacuous :
 Proof.
   split.
   - split; [|split].
-    + intros t p [H|[H|[]]]; discriminate.
-    + intros k1 k2 t1 t2 [<-|[<-|[]]] [<-|[<-|[]]] E1 E2 E; inversion E1; inversion E2; subst; try discriminate;
-        split; reflexivity.
-    + intros k t in_res inp out pts tol _ _ [H|[H|[]]]; discriminate.
-  - intros k t [<-|[<-|[]]] E; inversion E; subst; cbn; split; discriminate.
+    + intros k t p [<-|[<-|[]]] [].
+    + intros k1 k2 t1 t2 [<-|[<-|[]]] [<-|[<-|[]]] [<-|[]] [<-|[]] E; try discriminate; split; reflexivity.
+    + intros k t k' out _ _ [<-|[<-|[]]] [].
+  - intros k t [<-|[<-|[]]] [<-|[]]; cbn; split; discriminate.
 Qed.
 
 (* non-vacuity: the hypotheses of the partial theorems are satisfiable by the reproduced single-level run *)
 Example C13_nonvacuous :
   exists s' t, run_net 30 false true [e0] w_state = Some (Ok, s', t) /\ (List.length t > 3)%nat.
 Proof. vm_compute. eexists. eexists. split; [reflexivity|]. repeat constructor. Qed.
+
+(* ---- controllers over index arrays (one DiscreteTapControl / ContinuousTapControl / CharacteristicControl over several
+   elements): is_converged is np.all over the elements *)
+
+(* converged iff nothing_to_do or EVERY element is in its band / at the limit in the needed direction / without voltage *)
+Theorem C13_discrete_vector_converged_iff : forall ts ntd lo up s,
+  discv_conv ts ntd lo up s = true <->
+  ntd = true \/ Forall (fun t => disc_ok t lo up (get (t_bus t) (res s)) (get (t_trafo t) (vars s))) ts.
+Proof. exact discv_converged_iff. Qed.
+Print Assumptions C13_discrete_vector_converged_iff.
+
+Theorem C13_continuous_vector_converged_iff : forall tks ntd s,
+  contv_conv tks ntd s = true <->
+  ntd = true \/ Forall (fun tk => cont_ok (fst tk) (snd tk) (get (t_bus (fst tk)) (res s)) (get (t_trafo (fst tk)) (vars s))) tks.
+Proof. exact contv_converged_iff. Qed.
+Print Assumptions C13_continuous_vector_converged_iff.
+
+(* characteristic controller over several elements (TapDependentImpedance included): converged iff applied and EVERY output
+   is within tol of the characteristic of its input *)
+Theorem C13_characteristic_vector_converged_iff : forall c in_res ios pts tol s,
+  fst (charv_conv c in_res ios pts tol s) = true <->
+  getb c (applied s) = true /\ Forall (charv_elem_ok in_res pts tol s) ios.
+Proof. exact charv_converged_iff. Qed.
+Print Assumptions C13_characteristic_vector_converged_iff.
+
+(* the vector step is the scalar rule applied element-wise to the state before the step (distinct transformers), it
+   leaves every other slot alone, and each written value is inside the bounds of its own element *)
+Theorem C13_discrete_vector_step_elementwise : forall c ts lo up hl s t,
+  NoDup (map t_trafo ts) -> In t ts ->
+  get (t_trafo t) (vars (discv_step c ts false lo up hl s)) = disc_new_F lo up s t.
+Proof. exact discv_step_elementwise. Qed.
+Print Assumptions C13_discrete_vector_step_elementwise.
+
+Theorem C13_discrete_vector_step_frame : forall c ts ntd lo up hl s k,
+  ~ In k (map t_trafo ts) -> get k (vars (discv_step c ts ntd lo up hl s)) = get k (vars s).
+Proof. exact discv_step_frame. Qed.
+Print Assumptions C13_discrete_vector_step_frame.
+
+Theorem C13_discrete_vector_tap_in_bounds : forall lo up s t,
+  in_bounds t (get (t_trafo t) (vars s)) -> in_bounds t (disc_new_F lo up s t).
+Proof. exact discv_new_in_bounds. Qed.
+Print Assumptions C13_discrete_vector_tap_in_bounds.
+
+Theorem C13_continuous_vector_tap_in_bounds_partial : forall s t p,
+  k_check p = true -> t_min t <= t_max t -> in_bounds t (cont_new_F s (t, p)).
+Proof. exact contv_new_in_bounds. Qed.
+Print Assumptions C13_continuous_vector_tap_in_bounds_partial.
+
+(* progress: a vector controller that is not converged has a non-converged element, and the step moves that element one tap
+   in the needed direction (voltage not exactly on a band edge, tap inside its bounds) *)
+Theorem C13_discrete_vector_progress : forall ts lo up s,
+  lo <= up -> discv_conv ts false lo up s = false ->
+  exists t, In t ts /\ disc_conv (elem t) lo up s = false /\
+    forall v x, get (t_bus t) (res s) = Some v -> get (t_trafo t) (vars s) = Some x ->
+      t_min t <= x <= t_max t -> ~ v == lo -> ~ v == up ->
+      (v < lo /\ disc_incr t lo up (Some v) (Some x) == (if needs_lower_tap t true then -(1) else 1)) \/
+      (up < v /\ disc_incr t lo up (Some v) (Some x) == (if needs_lower_tap t false then -(1) else 1)).
+Proof. exact discv_not_converged_moves. Qed.
+Print Assumptions C13_discrete_vector_progress.
+
+(* ---- hunting_limit (DiscreteTapControl.control_step :118-120) *)
+(* the window _hunting_taps after a step: a suffix of (old rows ++ [written taps]) with at most one row dropped, its last
+   row is the written tap vector, and it never grows beyond max(hunting_limit, 1) rows *)
+Theorem C13_hunting_window : forall hl rows row,
+  (exists dropped, dropped ++ hunt_push hl rows row = rows ++ [row] /\ (List.length dropped <= 1)%nat) /\
+  (rows <> [] -> last (hunt_push hl rows row) [] = row) /\
+  (forall n, hl = Some n -> (List.length rows <= Nat.max n 1)%nat -> (List.length (hunt_push hl rows row) <= Nat.max n 1)%nat).
+Proof.
+  intros hl rows row. split; [exact (hunt_push_suffix hl rows row)|]. split; [exact (hunt_push_last hl rows row [])|].
+  intros n ->. exact (hunt_push_bounded n rows row).
+Qed.
+Print Assumptions C13_hunting_window.
+
+(* the verdict and the written taps of a discrete controller do not depend on hunting_limit nor on the recorded window *)
+Theorem C13_hunting_limit_inert : forall c ts ntd lo up hl hl' s a,
+  fst (c_conv (mk_ctrl c (KDiscV ts ntd lo up hl)) (with_attrs s a)) = fst (c_conv (mk_ctrl c (KDiscV ts ntd lo up hl')) s) /\
+  vars (c_step (mk_ctrl c (KDiscV ts ntd lo up hl)) (with_attrs s a)) = vars (c_step (mk_ctrl c (KDiscV ts ntd lo up hl')) s).
+Proof. intros. split; [apply hunting_inert_conv | apply hunting_inert_step]. Qed.
+Print Assumptions C13_hunting_limit_inert.
+
+(* hunting_limit can turn a non-converged controller into a converged one only at a reversal count >= the limit; of the
+   code as it is this holds because it NEVER does: a reported convergence always means that every element satisfies the
+   band / limit criterion (second conjunct), for every hunting_limit, window and reversal count *)
+Theorem C13_hunting_limit_only_at_limit : forall c ts lo up n s col,
+  fst (c_conv (mk_ctrl c (KDiscV ts false lo up (Some n))) s) = true ->
+  (~ discv_ok ts lo up s -> (n <= reversals (deltas col))%nat) /\ discv_ok ts lo up s.
+Proof.
+  intros c ts lo up n s col H. split; [exact (hunting_changes_verdict_only_at_limit c ts lo up n s col H)|].
+  exact (hunting_never_forces_convergence c ts lo up (Some n) s H).
+Qed.
+Print Assumptions C13_hunting_limit_only_at_limit.
+
+(* and it does not stop hunting either: limit 2, four reversals recorded, the controller is still not converged and steps again *)
+Theorem C13_hunting_not_stopped :
+  let k := KDiscV [th] false (99#100) (101#100) (Some 2%nat) in
+  let s := hunt_state (985#1000) 0 in
+  fst (c_conv (mk_ctrl 0 k) s) = false /\
+  get 3 (vars (c_step (mk_ctrl 0 k) s)) = Some (-(1)) /\
+  (reversals (deltas osc_col) >= 2)%nat.
+Proof. exact hunting_not_stopped. Qed.
+Print Assumptions C13_hunting_not_stopped.
+
+(* ---- whole runs with vector controllers *)
+(* G13r (no TapDependentImpedance with restore): the state returned by run_control is the state the levels loop ended with *)
+Theorem C13_return_state_is_loop_state_partial : forall max_iter cod cel (cs : list entry) s s' t,
+  G13r cs = true -> run_net max_iter cod cel cs s = Some (Ok, s', t) ->
+  exists co ir s0 netc t0 t1,
+    ctrl_variables _ cs = Some (co, ir) /\
+    levels_loop cst run_stream max_iter cod cel (map (map to_ctrl) co) s0 netc 0 = (Ok, s', t1) /\ t = t0 ++ t1.
+Proof. exact return_state_is_loop_state. Qed.
+Print Assumptions C13_return_state_is_loop_state_partial.
+
+(* with a restoring TapDependentImpedance the returned element table differs from what the last calculation has seen *)
+Theorem C13_return_state_is_loop_state_refuted :
+  exists (cs : list entry) (s s' : cst) t,
+    G13 (match ctrl_variables _ cs with Some (co, _) => co | None => [] end) = true /\
+    run_net 30 false true cs s = Some (Ok, s', t) /\
+    exists v, last_run_vars t = Some v /\ feq_opt (get 3001 v) (get 3001 (vars s')) = false.
+Proof. exact tdi_restore_refuted. Qed.
+Print Assumptions C13_return_state_is_loop_state_refuted.
+
+(* G13 (one non-empty level), G13r, check_each_level: on a normal return EVERY element of every scheduled vector controller
+   satisfies its criterion on the returned state - whatever hunting_limit is *)
+Theorem C13_vector_elements_ok_on_return_partial : forall max_iter cod (cs : list entry) s s' t co ir,
+  G13r cs = true -> ctrl_variables _ cs = Some (co, ir) -> G13 co = true ->
+  run_net max_iter cod true cs s = Some (Ok, s', t) ->
+  forall e c, In e (List.concat co) ->
+    (forall ts lo up hl, e_obj e = (c, KDiscV ts false lo up hl) -> discv_ok ts lo up s') /\
+    (forall tks, e_obj e = (c, KContV tks false) -> contv_ok tks s') /\
+    (forall in_res ios pts tol tdi, e_obj e = (c, KCharV in_res ios pts tol tdi) -> Forall (charv_elem_ok in_res pts tol s') ios).
+Proof. exact vector_elements_ok_on_return. Qed.
+Print Assumptions C13_vector_elements_ok_on_return_partial.
+
+(* non-vacuity: a two-element discrete controller with hunting_limit 2 steps one element and returns normally *)
+Example C13_vector_nonvacuous :
+  exists co ir s' t,
+    G13r w5_cs = true /\ ctrl_variables _ w5_cs = Some (co, ir) /\ G13 co = true /\
+    run_net 30 false true w5_cs w5_state = Some (Ok, s', t) /\ In (mk 0 (KDiscV [tv1; tv2] false (99#100) (101#100) (Some 2%nat)) 0) (List.concat co) /\
+    (List.length t > 3)%nat.
+Proof.
+  vm_compute. do 4 eexists. split; [reflexivity|]. split; [reflexivity|]. split; [reflexivity|]. split; [reflexivity|].
+  split; [left; reflexivity|]. repeat constructor.
+Qed.
+
+(* ---- simulation: two controller sets whose methods respect a relation R on states and give equal verdicts on related
+   states (and a calculation that respects R) run through the same loop: same outcome, related returned states, call
+   traces related event by event *)
+Theorem C13_loop_simulation : forall St run (R : St -> St -> Prop),
+  (forall s1 s2, R s1 s2 -> R (fst (run s1)) (fst (run s2)) /\ snd (run s1) = snd (run s2)) ->
+  forall max_iter cod cel ir ls1 ls2 s1 s2,
+  Forall2 (Forall2 (sim_ctrl St R)) ls1 ls2 -> R s1 s2 ->
+  fst (fst (run_control St run max_iter cod cel ir ls1 s1)) = fst (fst (run_control St run max_iter cod cel ir ls2 s2)) /\
+  R (snd (fst (run_control St run max_iter cod cel ir ls1 s1))) (snd (fst (run_control St run max_iter cod cel ir ls2 s2))) /\
+  Forall2 (ev_rel St R) (snd (run_control St run max_iter cod cel ir ls1 s1)) (snd (run_control St run max_iter cod cel ir ls2 s2)).
+Proof. exact run_control_sim. Qed.
+Print Assumptions C13_loop_simulation.
+
+(* hunting_limit over whole runs: replace the hunting_limit of every DiscreteTapControl by an arbitrary per-controller value
+   f: for every controller table (controller ids of discrete controllers and restoring TapDependentImpedance controllers
+   distinct), every oracle, levels, orders, flags and max_iter the outcome is the same, the returned states agree on all
+   element values, results and flags (they differ at most in the _hunting_taps matrices), and the call traces agree event by
+   event (same controller, same verdict, same element values) *)
+Theorem C13_hunting_limit_irrelevant_over_runs : forall (f : nat -> option nat) max_iter cod cel (cs : list entry) s,
+  roles_ok cs ->
+  match run_net max_iter cod cel cs s, run_net max_iter cod cel (map (set_hl f) cs) s with
+  | Some (o1, s1, t1), Some (o2, s2, t2) =>
+      o1 = o2 /\ same_but_attrs cs s1 s2 /\ Forall2 (ev_rel cst (Rh (hids cs))) t1 t2
+  | None, None => True
+  | _, _ => False
+  end.
+Proof. exact hunting_limit_irrelevant_over_runs. Qed.
+Print Assumptions C13_hunting_limit_irrelevant_over_runs.
+
+Example C13_hunting_irrelevant_nonvacuous :
+  roles_ok w5_cs /\ map (set_hl (fun _ => None)) w5_cs <> w5_cs /\ hids w5_cs = [0%nat].
+Proof.
+  split; [|split; [|reflexivity]].
+  - intros e [<-|[]] X. discriminate X.
+  - intros X. inversion X.
+Qed.
